@@ -3,6 +3,7 @@
 -/
 import Rsactor.Inv.KillBound
 import Rsactor.Inv.End
+import Rsactor.Inv.Progress
 import Rsactor.Ties.lifecycle_arms
 import Rsactor.Ties.send_paths_shape
 import Rsactor.Ties.handle_algebra_shape
@@ -102,6 +103,21 @@ example : ∃ s, run? (init 2 {})
     [.gate, .startDone, .issue 0 { kind := .tell }, .push 0, .dropH 0, .pollTerm, .pollMail, .gate, .handlerDone,
      .pollTerm] = some s ∧ s.pc = .stopping false false false ∧ startedMids s.ev = [0] := by
   refine ⟨_, rfl, ?_, ?_⟩ <;> decide
+
+/-- `unreferenced_actor_does_not_idle`: in a state in which the runtime has nothing left to run, an actor to which no strong
+    reference remains (none in a handle, none in a queued message, none in a running hook) is not parked in its select:
+    it has ended, or it is inside a hook that waits for its own external event.  With `ends_when_unreferenced` (the
+    step it takes) and `never_spontaneous` (the only steps that begin a stop) this is "ends when unreferenced, and only
+    then" without a fairness assumption. -/
+theorem unreferenced_actor_does_not_idle (s : Sys) (hq : quiescent s) (h0 : s.strongCount = 0) :
+    s.pc = .ended ∨
+    (s.gatePermits = 0 ∧ (s.pc = .starting ∨ (∃ m k, s.pc = .inHandler m k) ∨ ∃ a b c, s.pc = .stopping a b c)) :=
+  quiescent_due_has_ended s hq (Or.inr (Or.inl h0))
+
+/-- ... and conversely an actor that idles (parked, nothing to run) is referenced, has no kill pending and owes no message -/
+theorem idle_actor_is_referenced (s : Sys) (hq : quiescent s) (hpk : s.pc = .parked) :
+    s.termSlot = false ∧ s.strongCount ≠ 0 ∧ s.mbox = [] :=
+  quiescent_parked s hq hpk
 
 /-! ### ties to the source -/
 -- @tie Rsactor.Ties.lifecycle_arms
